@@ -88,6 +88,10 @@ vector<double> NumCalcApplicationTools::getVector(const std::string& desc)
     if (keyvals.find("step") != keyvals.end())
     {
       double step = TextTools::toDouble(keyvals["step"]);
+      if (!(step > 0))
+        throw Exception("Unvalid sequence specification, 'step' must be positive: " + desc);
+      if (!((end - start) / step < 10000000.))
+        throw Exception("Unvalid sequence specification, too many values: " + desc);
       for (double x = start; x <= end + NumConstants::TINY(); x += step)
       {
         double y;
@@ -114,6 +118,8 @@ vector<double> NumCalcApplicationTools::getVector(const std::string& desc)
     else
     {
       int size = TextTools::toInt(keyvals["size"]);
+      if (size < 1 || size > 10000000)
+        throw Exception("Unvalid sequence specification, 'size' must be between 1 and 10000000: " + desc);
       double step = (end - start) / (double)size;
       for (int i = 0; i < size - 1; i++)
       {
